@@ -65,6 +65,29 @@ CHECKS.update({
     ),
 })
 
+CHECKS.update({
+    "C08": (
+        "Lean model of edge recording, renumbering, adjacency and naming (theorems about the exported edge multiset) + exact correspondence with the implementation's numbering + Spec-level expected edge set",
+        "Proof about the export model (vertex numbering, edge multiset = {(v, g v)}), tied to the code by running both with identical hash values; scipy/networkx modelled (compared with the dense matrix).",
+        "5 C08",
+    ),
+    "C10": (
+        "Lean theorems about the models of inverse_permutation, generators_inverse_map, with_inverted_generators, make_inverse_closed (and inv soundness for every float candidate) + exhaustive small-n correspondence",
+        "Proof for permutation definitions (full) and soundness of matrix inversion for every candidate; completeness of the float-based matrix inverse is partial (IEEE floats are an oracle) and covered by the correspondence against an exact rational inverse.",
+        "5 C10",
+    ),
+    "C19": (
+        "Lean theorems (Hamming = mismatch count, zero iff central, batch independence for every batch size) + correspondence on vector and matrix states",
+        "Proof about the predictor model and the batching combinator, tied to the code by running both on generated batches and batch sizes.",
+        "5 C19",
+    ),
+    "C20": (
+        "Lean theorems about the model of permutation_utils (group laws, cycles, enumeration) + exhaustive correspondence for all pairs n <= 5 and all cycle types n <= 6",
+        "Proof (laws for all permutations) with checked computations for the conjugacy-class enumerator where a forall-theorem is not finished; tied to the code exhaustively on small n and randomly to n = 40.",
+        "5 C20",
+    ),
+})
+
 NOT_YET = {
 }
 
